@@ -106,7 +106,7 @@ func classifyH264(s *h26xps.H264SPS, st h26xps.Stats) {
 func TestH264SPSRoundTrip(t *testing.T) {
 	t.Parallel()
 	pps := h26xps.MinimalH264PPS()
-	evid.Checks(6000, 150000)
+	evid.Checks(25000, 400000)
 	rapid.Check(t, func(t *rapid.T) {
 		s := h26xps.GenH264SPS().Draw(t, "sps")
 		o := genSDPOpts(t)
